@@ -278,6 +278,15 @@ class SymDict:
     def __len__(self) -> int:
         return len(self.entries)
 
+    def concrete_view(self) -> Optional[Dict[int, Any]]:
+        """{word address: value term} when every key is a concrete number (later stores win), else None"""
+        out: Dict[int, Any] = {}
+        for k, v in self.entries:
+            if not z3.is_bv_value(k):
+                return None
+            out[k.as_long()] = v
+        return out
+
 
 def make_vreader_class() -> type:
     from flipjump.fjm.fjm_reader import Reader
